@@ -577,6 +577,11 @@ def _get_atoms(tokens, natoms):
             tokens.popleft()
         else:
             atoms.append([token, {}])
+    if natoms is not None and '--' in tokens:
+        # All expected atoms were read but the atom delimiter comes later:
+        # there are too many atoms on the line.
+        raise IOError('Found more atoms than the {} expected before "--".'
+                      .format(natoms))
     return atoms
 
 
